@@ -29,6 +29,9 @@ def get_api(
     type_source_preference: TypeSourcePreference = TypeSourcePreference.CODE,
     type_source_warning: TypeSourceWarning = TypeSourceWarning.WARN,
 ) -> API:
+    # The paths of mypy are compared with the paths of the files we found, a relative root would lose all packages
+    root = root.resolve()
+
     init_roots = _get_nearest_init_dirs(root)
     if len(init_roots) == 1:
         root = init_roots[0]
